@@ -204,13 +204,23 @@ def run(ctx):
     distinct = len({json.dumps(r["in"], sort_keys=True) for r in allrounds
                     if any(("ips=[" in v and "ips=[]" not in v) or (k.startswith(("l2 ", "peers ")) and v)
                            for k, v in r["in"]["state"].items())})
+    # declared guarded fields the struct no longer has: a note, not a verdict (the struct is then
+    # checked against the inferred lockset discipline, see tools/lockfacts load / inferGuards)
+    stale_notes = []
+    m = re.search(r'^Definition stale_declarations[^\n]*:= \[(.*)\]\.$', facts_src, re.M)
+    for fld, mtx, inferred in re.findall(r'\("([^"]+)", "([^"]+)", \[([^\]]*)\]\)', m.group(1) if m else ""):
+        stale_notes.append("declared guard for missing field %s ignored; inferred guard %s for fields [%s]"
+                           % (fld, mtx, ", ".join(re.findall(r'"([^"]+)"', inferred))))
     ctx.cov["correspondence"] = {
         "translator": {k: v for k, v in diag.items()},
+        "stale_declarations": stale_notes,
         "raw_handlers_from_registration": raw_handlers,
         "race_rounds": {k: len(v) for k, v in rounds.items()}, "harness_counters": st,
     }
     ctx.trusted += [
         "tools/lockfacts (go/ast, no type checker): the guard table (which mutex guards which field, from properties.jsonl anchors) is part of the translator; "
+        "a declared field the struct no longer has is dropped (coverage note stale_declarations) and the struct is checked against the inferred lockset discipline alone "
+        "(field written under the struct's mutex outside constructors => every access holds it); the notification obligations take their fields from what the status fetcher reads, not from names; "
         "accesses are recognised syntactically as <ident>.<guarded field>; aliases of a guarded container held in local variables are followed only for the escape analysis",
         "the flat instruction sequence over-approximates every path of a function only when lock operations are top-level statements of the function body "
         "(checked: repo_facts_wellformed)",
